@@ -325,3 +325,75 @@ func mkBox(v int) interface{} {
 func init() {
 	statics = append(statics, typeInfo{"Box", mkBox, []string{"", "v2"}})
 }
+
+// Link is a linked list validated level by level through `exist`: values of 1 .. 3000 levels, among them the round numbers a
+// recursion guard would pick as its limit and their neighbours (seeded C11n, C12p: a nesting limit of 1024 / 1000 whose counter
+// was shared between goroutines / leaked on the overflow path). Only the last node is invalid.
+type Link struct {
+	Name string `valid:"required" v2:"le=1"`
+	Next *Link  `valid:"exist" v2:"exist"`
+}
+
+var linkDepths = []int{1, 64, 100, 128, 256, 512, 1000, 1001, 1024, 1025, 3000, 999, 1023, 500, 2048, 65}
+
+func mkLink(v int) interface{} {
+	var head *Link
+	for i := linkDepths[v%len(linkDepths)]; i > 0; i-- {
+		n := &Link{Name: "n", Next: head}
+		if head == nil {
+			n.Name = ""
+		}
+		head = n
+	}
+	return head
+}
+
+// Outer nests Cust (whose Code field carries the rule `odd`, known only through a function of the call's own) two levels
+// down: a user function that panics there unwinds through every level of the walk (seeded C11p freed the pooled validator once per level).
+type Outer struct {
+	Name string  `valid:"required"`
+	In   *Cust   `valid:"required"`
+	List []Cust  `valid:"exist"`
+	Mid  *Middle `valid:"exist"`
+}
+
+type Middle struct {
+	Leaf Cust `valid:"exist"`
+}
+
+func mkOuter(v int) interface{} {
+	o := &Outer{Name: []string{"", "o"}[v%2]}
+	mk := func(i int) Cust { return Cust{Name: strN(1 + i%4), Code: strN(i % 4), Age: i % 5} }
+	if v%3 != 0 {
+		c := mk(v)
+		o.In = &c
+	}
+	for i := 0; i < v%3; i++ {
+		o.List = append(o.List, mk(v+i+1))
+	}
+	if v%4 >= 2 {
+		o.Mid = &Middle{Leaf: mk(v + 2)}
+	}
+	return o
+}
+
+func init() {
+	statics = append(statics,
+		typeInfo{"Link", mkLink, []string{"", "v2"}},
+		typeInfo{"Outer", mkOuter, []string{""}})
+}
+
+// BadTag: struct tags that are legal Go but not in key:"value" form for the tag names validated with (only vet objects; the
+// library ignores them). Seeded C08q reported them - once per cache miss.
+type BadTag struct {
+	Name string `valid:required json:"name"`
+	Code string `json:"code" valid: "required"`
+	Age  int    `valid:"ge=1" v2:to=1~3`
+	Note string `v2:"required" valid`
+}
+
+func init() {
+	statics = append(statics, typeInfo{"BadTag", func(v int) interface{} {
+		return &BadTag{Name: strN(v % 3), Code: strN(v % 2), Age: v % 4, Note: strN(v % 2)}
+	}, []string{"", "v2"}})
+}
